@@ -2624,6 +2624,13 @@ class Machine:
             # holds the later items (so the bad key, if any, may be in either)
             cut = rng.randint(0, len(items))
             first, second = dict(items[:cut]), dict(items[cut:])
+            if rng.chance(0.4):
+                # ... the mapping being a Meta object of its own kind
+                try:
+                    first = Cls(first)
+                except ALLOWED_EXC:
+                    pass
+            args_given = [first]
             if entry == 'update_map_kw':
                 fn = lambda: d.update(first, **second)  # noqa
             else:
@@ -2632,6 +2639,7 @@ class Machine:
                     f'**{[k for k in second]})')
         elif entry == 'update_meta':
             other = {k: v for k, v in items}
+            args_given = [other]
             fn = lambda: d.update(other, **{})  # noqa
             desc = f'update(mapping {[k for k, _ in items]})'
         elif entry in ('update_obj', 'ior_obj', 'ctor_obj'):
@@ -2646,6 +2654,7 @@ class Machine:
                     continue
             if arg is None:
                 arg = dict(items)
+            args_given = [arg]
             if entry == 'update_obj':
                 fn = lambda: d.update(arg)  # noqa
             elif entry == 'ior_obj':
@@ -2692,6 +2701,10 @@ class Machine:
             desc = f'{cls}.fromkeys({[k for k, _ in items]})'
         what = f'{cls} {desc}'
         before_d = dict(d) if d is not None else {}
+        try:
+            args0 = [canon(x) for x in args_given]
+        except NameError:
+            args_given, args0 = [], []
         value = f'{entry}:' + ('badkey' if invalid else 'valid')
         tgt = None if (d is None or entry.startswith(('ctor', 'fromkeys'))) \
             else a
@@ -2699,6 +2712,13 @@ class Machine:
                                     target=tgt)
         self.ev(slot=tgt, cls=cls, entry=entry, invalid=invalid, outcome=out,
                 keys=[k for k, _ in items])
+        # the mappings handed to the call are the caller's: whatever the
+        # outcome, they are as they were
+        for x, c0 in zip(args_given, args0):
+            if x is not d and canon(x) != c0:
+                self.violation('A2-collateral', f'{what}: the mapping that '
+                               f'was passed in changed: '
+                               f'{diff(c0, canon(x))}', cls=cls)
         if entry.startswith(('ctor', 'fromkeys')):
             if out in ('ok', 'wrongly-accepted') and isinstance(res, dict):
                 md = MDict(which)
